@@ -243,7 +243,7 @@ func C13(tier string) int {
 	c0s, c2s := few(1), few(2) // quick: creation with 0..1 of the first settings changed; third open <= 1 change
 	if tier == "thorough" {
 		sizes = []int{1024, 4096}
-		c0s, c2s = all[:128], few(2)
+		c0s, c2s = all[:64], few(2)
 	}
 	hists := []int{0}
 	if tier == "thorough" {
